@@ -71,6 +71,10 @@ def _under_type(h, name, inside=False):
     return any(_under_type(a, name, inside or h['k'] == 'type') for a in h.get('a', []) or [] if isinstance(a, dict))
 
 
+def _mentions_exo(h, name):
+    return (h['k'] == 'exo' and h.get('n') == name) or any(_mentions_exo(a, name) for a in h.get('a', []) or [] if isinstance(a, dict))
+
+
 def _mentions_kind(h, kind):
     return h['k'] == kind or any(_mentions_kind(a, kind) for a in h.get('a', []) or [] if isinstance(a, dict))
 
@@ -121,6 +125,8 @@ def generate(rng, run, tier):
                 continue
             # avoid switch: known finding C18-counter-implicit-int-overridden (most cases steer around it)
             if ov[0]['n'] == 'int' and ov[1]['k'] == 'seq' and _mentions_kind(h, 'counter') and rng.random() < 0.9:
+                continue
+            if ov[0]['n'] == 'str' and ov[1]['k'] == 'opt' and _mentions_exo(h, 'TypedDict') and rng.random() < 0.9:
                 continue
             break
         else:
@@ -248,9 +254,13 @@ def shrink(case, violation):
 def _sig_counter_int(case, v):
     """Known finding C18-counter-implicit-int-overridden."""
     ov = case.get('override')
-    return (v.get('kind') == 'rewrite_mismatch' and case.get('kind') == 'override' and bool(ov) and ov[0].get('n') == 'int'
-            and ov[1].get('k') == 'seq' and _mentions_kind(case['h'], 'counter')
-            and 'option side reject, hand-rewritten side accept' in v.get('detail', ''))
+    if not (v.get('kind') == 'rewrite_mismatch' and case.get('kind') == 'override' and bool(ov)
+            and 'option side reject, hand-rewritten side accept' in v.get('detail', '')):
+        return False
+    # Counter[K] -> mapping from K to a synthesised int; TypedDict -> mapping from a synthesised str
+    if ov[0].get('n') == 'int' and ov[1].get('k') == 'seq' and _mentions_kind(case['h'], 'counter'):
+        return True
+    return ov[0].get('n') == 'str' and ov[1].get('k') == 'opt' and _mentions_exo(case['h'], 'TypedDict')
 
 
 SIGNATURES = {'counter_implicit_int_overridden': _sig_counter_int}
